@@ -602,6 +602,7 @@ theorem run_hops (cfg : Cfg) (hj : cfg.useJar = false) (hH : getList cfg.factory
         · simp at hh; subst hh; exact hok
       split
       · exact hs
+      · exact hs
       simp only []
       split
       · exact hs
@@ -638,6 +639,134 @@ theorem every_hop_host_and_credentials (cfg : Cfg) (hj : cfg.useJar = false)
     exact ⟨Or.inl hr, Or.inl ha⟩
   · intro h hh; cases hh
 
+/-! ### the basic-authentication text never holds a line break -/
+
+theorem b64Char_ok (n : Nat) : b64Char n ≠ 13 ∧ b64Char n ≠ 10 := by
+  unfold b64Char
+  simp only []
+  split
+  · omega
+  · split
+    · omega
+    · split
+      · omega
+      · split <;> omega
+
+theorem b64_noBreak : ∀ (b : Bytes), NoBreak (b64 b)
+  | [] => by unfold b64 NoBreak; simp
+  | [a] => by
+    unfold b64 NoBreak
+    have h1 := b64Char_ok (a / 4); have h2 := b64Char_ok (a % 4 * 16)
+    simp only [List.mem_cons, List.not_mem_nil, or_false, not_or]
+    exact ⟨⟨h1.1.symm, h2.1.symm, by omega, by omega⟩, ⟨h1.2.symm, h2.2.symm, by omega, by omega⟩⟩
+  | [a, b] => by
+    unfold b64 NoBreak
+    have h1 := b64Char_ok (a / 4); have h2 := b64Char_ok (a % 4 * 16 + b / 16); have h3 := b64Char_ok (b % 16 * 4)
+    simp only [List.mem_cons, List.not_mem_nil, or_false, not_or]
+    exact ⟨⟨h1.1.symm, h2.1.symm, h3.1.symm, by omega⟩, ⟨h1.2.symm, h2.2.symm, h3.2.symm, by omega⟩⟩
+  | a :: b :: c :: t => by
+    have ih := b64_noBreak t
+    unfold b64
+    have h1 := b64Char_ok (a / 4); have h2 := b64Char_ok (a % 4 * 16 + b / 16)
+    have h3 := b64Char_ok (b % 16 * 4 + c / 64); have h4 := b64Char_ok (c % 64)
+    unfold NoBreak at ih ⊢
+    simp only [List.mem_append, List.mem_cons, List.not_mem_nil, or_false, not_or]
+    exact ⟨⟨⟨h1.1.symm, h2.1.symm, h3.1.symm, h4.1.symm⟩, ih.1⟩, ⟨⟨h1.2.symm, h2.2.symm, h3.2.symm, h4.2.symm⟩, ih.2⟩⟩
+
+/-- `basic_auth_single_line`: for EVERY user name and password (any length, any characters) the
+Authorization text `Basic <base64>` holds no CR and no LF — the hypothesis on field values that
+`request_shape` needs is met by the credentials field. -/
+theorem basic_auth_single_line (user pass : Str) : NoBreak (basicAuth user pass) := by
+  unfold basicAuth
+  have h := b64_noBreak (utf8Replace (user ++ [58] ++ pass))
+  have h0 : NoBreak (lit "Basic ") := by decide
+  unfold NoBreak at *
+  simp only [List.mem_append, not_or]
+  exact ⟨⟨h0.1, h.1⟩, ⟨h0.2, h.2⟩⟩
+
+/-- non-vacuity: 60 bytes of credentials (where a line-wrapping encoder would break the line) -/
+example : (basicAuth (List.replicate 40 117) (List.replicate 19 112)).length = 6 + 80 := by decide
+
+/-! ### the request target of every hop, with and without a proxy -/
+
+theorem hasField_setField_host (f : Fields) (v : Str) : hasField (setField f (lit "Host") v) (lit "Host") = true := by
+  rw [hasField_iff, vals_setField]; simp
+
+/-- `prepare_for_send` may be called several times on one request (`_process_redirect` calls it in
+origin form, `Stream.write_request` again with the connection's flag): the LAST call decides the
+form of the target, and nothing else differs from a single call with that flag. -/
+theorem prepareForSend_last_wins (r : Req) (a b : Bool) :
+    prepareForSend (prepareForSend r a) b = prepareForSend r b := by
+  unfold prepareForSend
+  by_cases hh : hasField r.fields (lit "Host") = true
+  · simp [hh]
+  · simp [hh, hasField_setField_host]
+
+theorem addBasicAuth_url (cfg : Cfg) (r : Req) : (addBasicAuth cfg r).url = r.url := by
+  rw [addBasicAuth_eq]; split <;> rfl
+
+/-- the form the target must have on a connection: absolute for http through a proxy, else origin -/
+def wantFull (cfg : Cfg) (u : UrlC) : Bool := cfg.proxy && u.scheme = lit "http"
+
+theorem sendPrep_target (cfg : Cfg) (s : Sess) (r : Req) :
+    (sendPrep cfg s r).url = r.url ∧
+    (sendPrep cfg s r).resourcePath = target r.url (wantFull cfg r.url) := by
+  unfold sendPrep wantFull
+  simp only []
+  split
+  · exact ⟨by simp [prepareForSend, addBasicAuth_url], by simp [prepareForSend, addBasicAuth_url]⟩
+  · exact ⟨rfl, rfl⟩
+
+theorem run_targets (cfg : Cfg) (adv : List Req → Reply) :
+    ∀ (n : Nat) (s : Sess) (sent : List Req) (last fu ar : Nat),
+      (∀ h ∈ sent, h.resourcePath = target h.url (wantFull cfg h.url)) →
+      ∀ h ∈ (run cfg adv n s sent last fu ar).sent, h.resourcePath = target h.url (wantFull cfg h.url) := by
+  intro n
+  induction n with
+  | zero => intro s sent _ _ _ hs; unfold run; exact hs
+  | succ n ih =>
+    intro s sent last fu ar hs
+    unfold run
+    split
+    · exact hs
+    · rename_i r hcur
+      have hs' : ∀ h ∈ sent ++ [sendPrep cfg s r], h.resourcePath = target h.url (wantFull cfg h.url) := by
+        intro h hh
+        rcases List.mem_append.mp hh with hh | hh
+        · exact hs h hh
+        · simp at hh; subst hh
+          have := sendPrep_target cfg s r
+          rw [this.1]; exact this.2
+      split
+      · exact hs
+      · exact hs
+      simp only []
+      split
+      · exact hs
+      · split
+        · exact hs'
+        · split
+          · exact hs'
+          · split
+            · split
+              · exact ih _ _ _ _ _ hs'
+              · exact ih _ _ _ _ _ hs'
+            · exact ih _ _ _ _ _ hs'
+
+/-- `every_hop_target`: on EVERY hop of EVERY chain — first request, 301/302/303 follow-ups,
+307/308 replays, authentication retries, with or without cookie jar, against every server — the
+request target is the hop URL's path (+ ?query) in origin form, and the absolute URL whenever the
+hop goes through a (non-tunnelled) proxy; an earlier `prepare_for_send()` in origin form by
+`_process_redirect` does not stick. -/
+theorem every_hop_target (cfg : Cfg) (adv : List Req → Reply) (r : Req) :
+    ∀ h ∈ (session cfg adv r).sent,
+      h.resourcePath = (if cfg.proxy && h.url.scheme = lit "http" then urlStr h.url
+                        else if h.url.query ≠ [] then h.url.path ++ [63] ++ h.url.query else h.url.path) := by
+  intro h hh
+  have := run_targets cfg adv (enoughFuel cfg) (initSess cfg r) [] 0 0 0 (by intro h hh; cases hh) h hh
+  rw [this]; unfold target wantFull
+  split <;> simp_all
+
 def exUrlB : UrlC :=
   { scheme := lit "https", hostname := lit "b.example", port := 443, ipv6 := false, path := lit "/y", query := [],
     username := [], password := [], normUser := [], normPass := [] }
@@ -649,6 +778,12 @@ def exUrlA : UrlC :=
 def exCfg : Cfg :=
   { maxRedirects := 5, proxy := false, factoryFields := [(lit "User-Agent", [lit "ua"])], useJar := false,
     auth := basicAuth, jar := fun _ _ => none }
+
+/-- non-vacuity: through a proxy the 307 replay to an http URL carries the absolute URL -/
+example :
+    ((session { exCfg with proxy := true } (scriptAdv [.resp 307 true (.url { exUrlB with scheme := lit "http", port := 80 })])
+        { exReq with url := exUrlA }).sent.map (·.resourcePath))
+    = [lit "http://u:p@a.example/x", lit "http://b.example/y"] := by decide
 
 /-- non-vacuity: a 307 from `http://u:p@a.example/x` to `https://b.example/y`: the replayed
 request names b.example and carries no credentials -/
